@@ -371,7 +371,7 @@ def check_enclosure(rng, shape, state, rect):
                     if ex > tol and (worst is None or ex > worst[0]):
                         worst = (ex, p, th, x)
     if worst:
-        return (f"placed point {tuple(round(z, 6) for z in worst[3])} (position {tuple(round(z, 6) for z in worst[1])}, "
+        return (f"placed point {tuple(round(float(z), 6) for z in worst[3])} (position {tuple(round(float(z), 6) for z in worst[1])}, "
                 f"orientation {worst[2]:.6f}) lies {worst[0]:.6g} outside the returned rectangle "
                 f"(l={rect.length:.6g}, w={rect.width:.6g}, c={rect.center.tolist()}, o={rect.orientation:.6g})")
     return None
